@@ -8,13 +8,22 @@
      decoded symbol), keeps its value through every later call of the streaming decoder, through the
      ML finish, and through every call of the Reed-Solomon API layer; the entry written for a fresh
      submission is the submitted buffer itself;
-   - the dense-matrix copies act only within the bounds of the matrices given.
+   - the dense-matrix copies act only within the bounds of the matrices given;
+   - EVERY table access of the streaming decoder is in range (ITBounds.v): the models read with `nth i l default` and write
+     with `upd`, which are total, so an index slip would be masked; decode_chk is a copy of the decoder whose every read and
+     write of tab / ct / unk / enc / rws goes through accessors that FAIL out of range; it refines the plain model
+     unconditionally, and from the initial state, for every history of submissions with ESIs below n, no call is ever
+     OutOfBounds (nor stuck on an ill-shaped row) and every call computes exactly what the plain model computes; the
+     hypotheses are needed (closed examples: a column >= n, a short table, a complete state with a corrupted row);
+   - no dangling reference to a heap block (LdpcHeap.v, C08's ledger): in every reachable state every block named by a table
+     slot is live, and a block is freed only once - so the decoder never reads a partial sum, a stored repair symbol or a
+     decoded source through a pointer to freed memory.
    What NO model here can exhibit, and what the check decides at run time instead: pointer-level
    behaviour of the compiled C (out-of-bounds reads/writes, use after free, alignment) - every
    generated life cycle runs under AddressSanitizer/UBSan with exact-size heap buffers and every
    application buffer is compared before/after. *)
 From Coq Require Import NArith Arith List Bool.
-From OFV Require Import ListAux Kernels KernelProofs XorGroup LdpcEnc ITModel ITProofs MLModel RSApi RSApiProofs StableTables.
+From OFV Require Import ListAux Kernels KernelProofs XorGroup LdpcEnc ITModel ITProofs MLModel RSApi RSApiProofs StableTables ITBounds LdpcHeap LdpcHeapProofs.
 Import ListNotations.
 
 Theorem kernels_write_nothing_beyond_size : forall f size l j, size <= j -> nth j (upd_range f 0 size l) 0%N = nth j l 0%N.
@@ -55,6 +64,37 @@ Theorem rs_api_stores_the_submitted_buffer :
   nth esi (RSApi.tab (fst (RSApi.rs_decode_with_new_symbol core cb mk s esi b))) None = Some b.
 Proof. exact rs_step_stores_submitted. Qed.
 
+(* ---- every table access in range ---- *)
+Theorem checked_decoder_refines_the_model : forall (Sy : Type) (sxor : Sy -> Sy -> Sy) (s0 : Sy) fuel s c v,
+  refines Sy (decode_chk sxor s0 fuel s c v) (ITModel.decode sxor s0 fuel s c v).
+Proof. exact decode_chk_refines. Qed.
+
+Theorem no_table_access_out_of_range_in_any_history :
+  forall (Sy : Type) (sxor : Sy -> Sy -> Sy) (s0 : Sy) (H0 : list (list nat)) (R0 N0 : nat),
+  length H0 = R0 -> (forall i, i < R0 -> NoDup (nth i H0 [])) -> (forall i c, i < R0 -> In c (nth i H0 []) -> c < N0) ->
+  (forall i, i < R0 -> 2 <= length (nth i H0 [])) -> R0 <= N0 ->
+  forall fuel hist, N0 < fuel -> (forall ev, In ev hist -> fst ev < N0) ->
+  forall h1 ev h2, hist = h1 ++ ev :: h2 ->
+  exists s s', run_chk Sy sxor s0 H0 R0 N0 fuel h1 = Ok s /\ GoodB Sy H0 R0 N0 s /\
+               decode_chk sxor s0 fuel s (fst ev) (snd ev) = Ok s' /\ GoodB Sy H0 R0 N0 s'.
+Proof. exact run_chk_every_call. Qed.
+
+Theorem checked_run_equals_plain_run :
+  forall (Sy : Type) (sxor : Sy -> Sy -> Sy) (s0 : Sy) (H0 : list (list nat)) (R0 N0 : nat),
+  length H0 = R0 -> (forall i, i < R0 -> NoDup (nth i H0 [])) -> (forall i c, i < R0 -> In c (nth i H0 []) -> c < N0) ->
+  (forall i, i < R0 -> 2 <= length (nth i H0 [])) -> R0 <= N0 ->
+  forall fuel hist, (forall ev, In ev hist -> fst ev < N0) ->
+  run_chk Sy sxor s0 H0 R0 N0 fuel hist = lift Sy (ITProofs.run Sy sxor s0 H0 R0 N0 fuel hist).
+Proof. exact run_chk_eq. Qed.
+
+(* ---- no dangling reference ---- *)
+Theorem every_block_a_table_names_is_live : forall s, HInv s ->
+  forall b, In b (somes (hct s) ++ lib_blocks (htab s)) -> In b (live (hp s)).
+Proof. intros s H b Hb. destruct H as (_ & _ & _ & _ & (Hl & _) & _). apply Hl. exact Hb. Qed.
+
+Print Assumptions no_table_access_out_of_range_in_any_history.
+Print Assumptions checked_run_equals_plain_run.
+Print Assumptions every_block_a_table_names_is_live.
 Print Assumptions kernels_write_nothing_beyond_size.
 Print Assumptions ldpc_decoder_never_overwrites_a_held_symbol.
 Print Assumptions ml_finish_never_overwrites_a_held_symbol.
